@@ -57,6 +57,12 @@ func vname(v *types.Var) string {
 	if n, ok := oldFieldName[v]; ok {
 		return n
 	}
+	// a field of an instantiated generic struct: the renaming is recorded on the field of the generic type
+	if o := v.Origin(); o != v {
+		if n, ok := oldFieldName[o]; ok {
+			return n
+		}
+	}
 	return v.Name()
 }
 func funcObjName(f *types.Func) string {
@@ -160,7 +166,7 @@ func fingerprintFunc(w *World, f *ssa.Function) (key string, af anchorFunc, ok b
 		key = r + "." + key
 	}
 	// signature without the receiver
-	af.Sig = typeStr(types.NewSignatureType(nil, nil, nil, sig.Params(), sig.Results(), sig.Variadic()))
+	af.Sig = sigFingerprint(sig)
 	seen := map[string]bool{}
 	for _, i := range allInstrs(f) {
 		ci, isCall := i.(ssa.CallInstruction)
@@ -442,4 +448,17 @@ func renameAssumptions() []string {
 	}
 	sort.Strings(out)
 	return out
+}
+
+// sigFingerprint: the signature without receiver and without parameter / result names (renaming a parameter is not a
+// change of the function's identity).
+func sigFingerprint(sig *types.Signature) string {
+	strip := func(t *types.Tuple) *types.Tuple {
+		vars := make([]*types.Var, t.Len())
+		for i := 0; i < t.Len(); i++ {
+			vars[i] = types.NewVar(0, nil, "", t.At(i).Type())
+		}
+		return types.NewTuple(vars...)
+	}
+	return typeStr(types.NewSignatureType(nil, nil, nil, strip(sig.Params()), strip(sig.Results()), sig.Variadic()))
 }
